@@ -54,10 +54,11 @@ LEVEL_TEXT = ("Lean proofs for all inputs: hybrid-36 decode(encode n w) = n for 
               "on the writer's text = exact decimal parsing; C07_round_error); C07_models / C07_models_single: model=k / -k select exactly "
               "that model's records, 0 and out-of-range are refused; C07_stack_assembly: the reader's model split of a written stack returns "
               "the records of model m in order (record j at [m, j]), equal block lengths, unequal lengths raise InvalidFileError "
-              "(C07_unequal_models_rejected); C07_conect_roundtrip: the set of carriable bonds survives write->read through the atom-id "
+              "(C07_unequal_models_rejected); empty structures are refused (C07_empty_rejected); C07_conect_roundtrip: the set of carriable bonds survives write->read through the atom-id "
               "map incl. hybrid-36 ids; C07_cryst1_roundtrip; C07_altloc_first / C07_altloc_occupancy: the altloc filters keep exactly the "
               "rows without id and those of the first / highest-occupancy id per residue; C07_file_roundtrip composes CRYST1, the model "
-              "split and the per-record round trip for a whole written stack at record level; regenerated ATOM and CRYST1 column tables. "
+              "split and the per-record round trip for a whole written stack at record level; C07_h36_decode_unvalidated_defect records that the "
+              "decoder does not validate characters (known finding); regenerated ATOM and CRYST1 column tables. "
               "Partial: box vectors <-> cell parameters (float32 trigonometry), element guessing, and the final packing of the per-record "
               "results into numpy arrays (mapMR in readPdb) are tied by correspondence and oracle only.")
 LEVEL_NOTE = "float formatting/parsing, numpy chararray and BondList semantics are modelled, not verified; see notes/C07.md"
